@@ -138,7 +138,7 @@ func gen28(r *simcore.Rand, tier string) any {
 		if r.Bool(0.1) {
 			m.Gas = uint64(r.Range(1_000, 30_000))
 		}
-		switch r.Pick(10, 3, 4, 3) {
+		switch r.Pick(10, 3, 4, 3, 3, 3, 3) {
 		case 0:
 			m.Kind, m.To = 0, env.all[r.Intn(nc)]
 			if r.Bool(0.7) {
@@ -169,6 +169,29 @@ func gen28(r *simcore.Rand, tier string) any {
 			}
 			a.push(n).push(off).op(opRETURN)
 			m.Kind, m.Code, m.ZeroRet = 2, a.bytes(), true
+		case 4: // writer of large memory: non-zero data from 16 KiB upwards
+			a := newAsm()
+			for k := r.Range(1, 2); k > 0; k-- {
+				emitBigFlood(a, r, env)
+			}
+			a.op(opSTOP)
+			m.Kind, m.Code, m.Gas = 2, a.bytes(), uint64(r.Range(600_000, 3_000_000))
+		case 5: // probe of never-written memory above 16 KiB
+			off := bigOffset(r)
+			n := uint64(r.Range(1, 8)) * 32
+			a := newAsm()
+			if r.Bool(0.4) {
+				a.push(off+n+uint64(r.Range(0, 100_000))).op(opMLOAD, opPOP)
+			}
+			a.push(n).push(off).op(opRETURN)
+			m.Kind, m.Code, m.ZeroRet, m.Gas = 2, a.bytes(), true, uint64(r.Range(600_000, 3_000_000))
+		case 6: // reader: hashes / copies / logs / passes on never-written memory above 16 KiB
+			a := newAsm()
+			for k := r.Range(1, 4); k > 0; k-- {
+				emitBigRead(a, r, env)
+			}
+			a.push(64).push(0).op(opRETURN)
+			m.Kind, m.Code, m.Gas = 2, a.bytes(), uint64(r.Range(600_000, 3_000_000))
 		}
 		p.Msgs = append(p.Msgs, m)
 	}
@@ -527,19 +550,25 @@ func run28(t *testing.T, pl any) *simcore.Result {
 	lh := simcore.NewHash()
 
 	// ---- phase A: references, each message alone, private caches, pools emptied (two GC cycles drop sync.Pool contents)
-	runtime.GC()
-	runtime.GC()
 	type refT struct {
 		have bool
 		o    outcome
 	}
 	refs := make([][3]refT, len(p.Msgs))
+	// Pools emptied once (two GC cycles drop sync.Pool contents); then every reference is computed twice, in
+	// opposite orders: the first execution of the first pass really is a first use of the pools, and a reference that
+	// is not reproducible when its predecessors change already contradicts the property.
+	runtime.GC()
+	runtime.GC()
+	var order []Step
 	need := func(s Step) {
 		rf := refFlavor(s)
 		if refs[s.Msg][rf].have {
 			return
 		}
-		refs[s.Msg][rf] = refT{true, w.exec(p, Step{Msg: s.Msg, Flavor: rf, Depth: 0}, false)}
+		st := Step{Msg: s.Msg, Flavor: rf, Depth: 0}
+		refs[s.Msg][rf] = refT{true, w.exec(p, st, false)}
+		order = append(order, st)
 	}
 	for _, s := range p.Seq {
 		need(s)
@@ -547,6 +576,15 @@ func run28(t *testing.T, pl any) *simcore.Result {
 	for _, l := range p.Actors {
 		for _, s := range l {
 			need(s)
+		}
+	}
+	for i := len(order) - 1; i >= 0; i-- {
+		st := order[i]
+		o := w.exec(p, st, false)
+		ref := &refs[st.Msg][st.Flavor].o
+		if d := sameOutcome(&o, ref); d != "" {
+			return res.Fail(&simcore.Violation{Oracle: "result-depends-on-history", Key: "result-depends-on-history:" + d,
+				Msg: fmt.Sprintf("reference pass 2 (reverse order): message %d (kind %d) flavour %d alone with private caches differs from its first-pass result in %s\n got: %s\n ref: %s", st.Msg, p.Msgs[st.Msg].Kind, st.Flavor, d, trunc(o.String(), 700), trunc(ref.String(), 700))})
 		}
 	}
 	for mi := range refs {
